@@ -19,7 +19,7 @@ rundemo() {
     cargo test --offline --features levenshtein --test zz_seeded_demo >"$OUT/$V.demo.$1.log" 2>&1; local rc=$?
     rm -f "$WT/tests/zz_seeded_demo.rs"; return $rc
   elif [ -f "$OUT/${V}_demo.sh" ]; then
-    ( cd "$WT" && bash "$OUT/${V}_demo.sh" ) >"$OUT/$V.demo.$1.log" 2>&1; return $?
+    ( cd "$WT" && cargo build --offline -p fst-bin >/dev/null 2>&1; bash "$OUT/${V}_demo.sh" ) >"$OUT/$V.demo.$1.log" 2>&1; return $?
   else echo "no demo"; return 99; fi
 }
 rundemo with; with=$?
